@@ -284,3 +284,69 @@ Proof.
   - (* Any *) destruct (uret_allows_inference u0 && negb (any_ok toa)); [discriminate|]. inversion A; subst. apply GEN.
   - (* None *) inversion A; subst. apply (GEN (Ok (none_named, false))).
 Qed.
+
+(* ======================================================================================================== *)
+(* C13: the documentation attached to a declaration is the docstring parser's answer for that declaration's own   *)
+(* qualified name - whatever was analysed before (the answer table is not part of the walk's state)               *)
+(* ======================================================================================================== *)
+Theorem class_doc_by_own_name al d st c st' w :
+  enter_class al d st c = Ok (st', w) ->
+  exists cl rest, vs_stack st' = FClass cl :: rest /\ doc_class d (cd_fullname c) = Ok (c_doc cl).
+Proof.
+  unfold enter_class. destruct (doc_class d (cd_fullname c)) as [doc|] eqn:ED; cbn [bind]; [|discriminate].
+  destruct (tenv_of al st); cbn [bind]; [|discriminate]. destruct (type_parameters _ c); cbn [bind]; [|discriminate].
+  destruct (superclasses _ c) as [[sups exc] amb]. destruct (ctor_fulldoc d c); cbn [bind]; [|discriminate].
+  destruct (is_public st (cd_name c) (cd_fullname c)); cbn [bind]; [|discriminate].
+  intro H. inversion H; subst. eexists. eexists. split; reflexivity.
+Qed.
+
+Theorem function_doc_by_own_name al d pref warn st f st' w :
+  enter_func al d pref warn st f = Ok (st', w) ->
+  exists fn rest, vs_stack st' = FFunc fn :: rest /\ doc_func d (fn_fullname f) = Ok (f_doc fn) /\
+                  doc_results d (fn_fullname f) = Ok (f_rdocs fn).
+Proof.
+  unfold enter_func. destruct (is_public st (fn_name f) (fn_fullname f)); cbn [bind]; [|discriminate].
+  destruct (doc_func d (fn_fullname f)) as [doc|] eqn:ED; cbn [bind]; [|discriminate].
+  destruct (tenv_of al st); cbn [bind]; [|discriminate].
+  match goal with |- context [bind ?X _] => destruct X as [ps|]; cbn [bind]; [|discriminate] end.
+  destruct (doc_results d (fn_fullname f)) as [rdocs|] eqn:ER; cbn [bind]; [|discriminate].
+  match goal with |- context [bind ?X _] => destruct X as [[rc ramb]|]; cbn [bind]; [|discriminate] end.
+  destruct (reconcile_results _ _ _ _ _) as [r n].
+  intro H. inversion H; subst. eexists. eexists. split; [reflexivity|]. split; reflexivity.
+Qed.
+
+Theorem parameter_doc_by_own_name env d st f fid a p tv lg amb :
+  parse_parameter env d st f fid a = Ok (p, tv, lg, amb) ->
+  exists pd cq, doc_param d (fn_fullname f) (ar_name a) cq = Ok pd /\
+                p_doc_type p = pd_type pd /\ p_doc_default p = pd_default pd /\ p_doc_desc p = pd_desc pd.
+Proof.
+  unfold parse_parameter. destruct (ar_vtype a) as [vt|]; [|discriminate].
+  match goal with |- (do at_ <- ?X; _) = _ -> _ => destruct X as [[at0 amb0]|]; cbn [bind]; [|discriminate] end.
+  match goal with |- (do dv <- ?X; _) = _ -> _ => destruct X as [[[[v1 n1] l1] t1]|]; cbn [bind]; [|discriminate] end.
+  rewrite kind_table. cbn [bind].
+  match goal with |- (do pd <- doc_param d _ _ ?CQ; _) = _ -> _ => destruct (doc_param d (fn_fullname f) (ar_name a) CQ) as [pd|] eqn:EP; cbn [bind]; [|discriminate] end.
+  intro H. inversion H; subst. eexists. eexists. split; [exact EP|]. cbn. auto.
+Qed.
+
+(* ======================================================================================================== *)
+(* C11 / C08: the re-exported-by list of a declaration is sorted by module id and free of duplicates              *)
+(* ======================================================================================================== *)
+Lemma nodup_by_nodup {T} (key : T -> str) (l : list T) :
+  NoDup (map key (nodup_by (fun a b => str_eqb (key a) (key b)) l)).
+Proof.
+  induction l as [|x r IH]; cbn; [constructor|]. constructor.
+  - intro C. apply in_map_iff in C. destruct C as [y [E Hin]]. apply filter_In in Hin as [_ Hf].
+    rewrite <- E, str_eqb_refl in Hf. discriminate.
+  - clear -IH. induction (nodup_by _ r) as [|y ys IHy]; cbn; [constructor|]. inversion IH; subst.
+    destruct (negb (str_eqb (key x) (key y))); cbn; [constructor; auto|auto].
+    intro C. apply H1. apply in_map_iff in C. destruct C as [z [E Hz]]. apply filter_In in Hz as [Hz _]. apply in_map_iff. eauto.
+Qed.
+
+Theorem reexported_by_sorted_nodup rm qname :
+  Sorting.Sorted.Sorted (fun a b => str_leb (rm_id a) (rm_id b) = true) (get_reexported_by rm qname) /\
+  NoDup (map rm_id (get_reexported_by rm qname)).
+Proof.
+  unfold get_reexported_by, sort_by_key. split.
+  - apply (Proofs.SortProofs.isort_sorted (fun a b => str_leb (rm_id a) (rm_id b))). intros a b. apply Proofs.SortProofs.str_leb_total.
+  - eapply Permutation_NoDup; [apply Permutation_map, Permutation_sym, Proofs.SortProofs.isort_perm|apply nodup_by_nodup].
+Qed.
